@@ -33,6 +33,28 @@ BO = 'pybufrkit/bitops.py'
 ER = 'pybufrkit/errors.py'
 
 CATALOGUE = [
+    # ---- C06
+    {'id': 'm-c06-only-refvals-reset', 'props': ['C06'], 'file': CO,
+     'old': "        # subset so we are not saving them.\n        self.reset_template_state()\n",
+     'new': "        # subset so we are not saving them.\n        self.new_refvals = {}\n",
+     'note': 'reverts the repair 6213085: only the 203YYY reference values are reset between subsets'},
+    {'id': 'm-c06-links-shared', 'props': ['C06'], 'file': CO,
+     'old': "            self.bitmap_links_all_subsets = [{} for _ in range(n_subsets)]\n",
+     'new': "            self.bitmap_links_all_subsets = [{}] * n_subsets\n",
+     'note': 'uncompressed subsets share one attribute-link dictionary'},
+    {'id': 'm-c06-back-references-kept', 'props': ['C06'], 'file': CO,
+     'old': "        self.back_reference_boundary = 0\n        self.back_referenced_descriptors = None\n",
+     'new': "        self.back_reference_boundary = 0\n        self.back_referenced_descriptors = getattr(self, 'back_referenced_descriptors', None)\n",
+     'note': 'the cached back references of the previous subset survive the subset switch: needs a bitmap without '
+             '235000 behind a layout that differs between subsets'},
+    {'id': 'm-c06-encoder-value-index-kept', 'props': ['C06'], 'file': CO,
+     'old': "        # Index to value is only needed for encoder\n        self.idx_value = 0\n",
+     'new': "        # Index to value is only needed for encoder\n",
+     'note': 'the encoder goes on reading values where the previous subset ended'},
+    {'id': 'm-c06-221-count-kept', 'props': ['C06'], 'file': CO,
+     'old': "        self.data_not_present_count = 0  # 221\n",
+     'new': "        self.data_not_present_count = getattr(self, 'data_not_present_count', 0)  # 221\n",
+     'note': 'an unused 221YYY count is carried into the next subset'},
     # ---- C11
     {'id': 'm-c11-advance-by-one', 'props': ['C11'], 'file': D,
      'old': "            idx_start += len(bufr_message.serialized_bytes)\n",
@@ -262,7 +284,7 @@ def main(ns):
     if not only:
         base = make_scratch(repo)
         try:
-            for prop in ('C08', 'C11', 'C12', 'C13', 'C17', 'C20'):
+            for prop in ('C06', 'C08', 'C11', 'C12', 'C13', 'C17', 'C20'):
                 code, out, _r, dt = run_check(prop, base)
                 print('baseline %-4s exit=%d (%.0fs)' % (prop, code, dt))
                 sys.stdout.flush()
